@@ -70,7 +70,7 @@ def translated_tie(ctx):
 
 
 def run(ctx):
-    ctx.prove(["Props/%s.vo" % ctx.pid, "Run/eval_deps.vo"], extra_props=["Compose_C03_C05"])   # + composition C03 => C05: the engine's payload status is what the exit-chain model's runDeps computes and what the generated main exits with
+    ctx.prove(["Props/%s.vo" % ctx.pid, "Run/eval_deps.vo"], extra_props=["Compose_C03_C05", "Compose_bigstep_C05"])   # + composition C03 => C05: the engine's payload status is what the exit-chain model's runDeps computes and what the generated main exits with
     ctx.trusted_base += depslib_trusted()
     ctx.pending_tie = None
     extra = translated_tie(ctx)
